@@ -110,6 +110,30 @@ def run_group(ctx, prop, lean=True, other_tiers=True):
         minimum = baseline.get(prop, {}).get(fname)
         if minimum is not None and len(obs) < minimum * 0.5 and not failed_dec:
             p['undecided'].append({'function': fname, 'note': 'obligation count dropped from {} to {}'.format(minimum, len(obs))})
+        # A decisive obligation that fails is a VIOLATION only when the proof scaffolding it rests on is intact:
+        #  * a clause that can no longer be EXPRESSED (it names a local that does not exist any more) is a stale contract, not a
+        #    statement about the code;
+        #  * when an auxiliary obligation of the same function fails too (a loop invariant that no longer holds or can no longer be
+        #    stated - e.g. after a harmless renaming of a local or a restructured loop) every fact the decisive clauses get from that
+        #    invariant is gone, so their failure says nothing about the property.
+        # In both cases the function is PROOF-DEGRADED and the bounded tier decides (never an alarm on code where the property holds).
+        stale = [ob for ob in failed_dec if 'not expressible' in ob.name]
+        # an obligation no solver could decide within its budget is UNDECIDED, never a violation
+        unknown = [ob for ob in failed_dec if ob.verdict != 'refuted']
+        if unknown and not (failed_aux or stale):
+            for ob in unknown:
+                p['undecided'].append({'function': fname, 'obligation': ob.ident, 'verdict': ob.verdict})
+            print('PROOF-DEGRADED {}: {} decisive obligation(s) undecided by every solver within the budget; the bounded tier decides'.format(fname, len(unknown)))
+            failed_dec = [ob for ob in failed_dec if ob.verdict == 'refuted']
+        if failed_dec and (failed_aux or stale):
+            for ob in failed_dec + failed_aux:
+                p['undecided'].append({'function': fname, 'obligation': ob.ident, 'verdict': ob.verdict})
+            print('PROOF-DEGRADED {}: {} decisive obligation(s) fail together with {} auxiliary one(s) / {} clause(s) that can no longer be '
+                  'expressed: the proof scaffolding is not intact, the bounded tier decides'.format(fname, len(failed_dec), len(failed_aux), len(stale)))
+            hook = c.get('native')
+            if hook:
+                _native(ctx, prop, fname, hook, failed_dec[0], aux=True)
+            continue
         for ob in failed_dec:
             _report(ctx, prop, fname, c, ob)
         if failed_aux and not failed_dec:
